@@ -1,3 +1,3 @@
 From Coq Require Import ExtrOcamlBasic.
 From CppUVerif Require Import lib.CInt C08_Model.
-Extraction "c08_model.ml" C08_Model.runw C08_Model.runw_old C08_Model.specw C08_Model.valid C08_Model.run C08_Model.spec C08_Model.parsew C08_Model.judgedw C08_Model.verdictw_ok.
+Extraction "c08_model.ml" C08_Model.runw C08_Model.runw_old C08_Model.specw C08_Model.valid C08_Model.run C08_Model.spec C08_Model.parsew C08_Model.judgedw C08_Model.verdictw_ok C08_Model.post_to_check.
